@@ -179,6 +179,14 @@ prop("C04", True,
      "structural lints over go/ssa: loop membership of constructor calls, dead-type-assertion via call-site type sets, must-pass event emission, discarded Read counts",
      "DESIGN.md §2 C04")
 
+prop("C09", True,
+     "Static checks of the release mechanisms for the 24 listed services (BOUNDED TIME AND DESCRIPTOR COUNTS ARE RUN-TIME QUANTITIES AND ARE NOT DECIDED): every goroutine started in a handler's call-graph reach has a reachable return (or leaves through a recovered panic) and, when its "
+     "only exits are closed/done arms of channel operations, a close() of that same channel object exists in handler code; every loop that reads from the handler's connection leaves the loop on every read error (no path from the error edge back to the read); every in-repo net.Conn "
+     "implementation's Read can return a non-nil error; every listener opened in handler-reachable code is closed; the dispatcher passes the idle-timeout wrapper whose Read/Write re-arm the deadline; no handler selects its datagram path by a connection type the dispatcher never passes.",
+     "Timing, descriptor counts and library-internal goroutines are not analysed; channel identity is by field / captured variable (field-based).",
+     "goroutine-exit rule on the VTA call graph + loop/error-edge reachability + Reader-contract sibling rule + open/close pairing over go/ssa",
+     "DESIGN.md §2 C09")
+
 PENDING = {
  "C01": "check not built yet in this revision (design: DESIGN.md §2 C01)",
 }
